@@ -530,6 +530,9 @@ func checkC05Static(c CaseC05Static) error {
 
 func checkC05Tables(c CaseStaticTables) error {
 	_, _, err := c05RunStatic(sgen.Render(c.Tables, c.Pres), c.Inherit)
+	if err == nil && c.Follow != nil {
+		_, _, err = c05RunStatic(sgen.Render(c.Follow, sgen.Canonical()), c.Inherit)
+	}
 	return err
 }
 
@@ -538,6 +541,34 @@ type CaseStaticTables struct {
 	Pres    sgen.Presentation
 	Inherit bool
 	Labels  []string `json:",omitempty"`
+	// Follow, when set, is parsed right after Tables in the same process: a cut-down feed whose references name ids that only
+	// the feed before it carries (whatever a parser keeps from one call must not be looked up by the next).
+	Follow sgen.Tables `json:",omitempty"`
+}
+
+// followUp builds the cut-down feed: the first row of every file, with every reference column naming the id of the LAST row
+// of the referenced file in ts - dangling in the cut-down feed, defined (at a high row index) in the feed before it.
+func followUp(ts sgen.Tables) sgen.Tables {
+	out := ts.Clone()
+	lastID := map[string]string{}
+	for i := range ts {
+		if idc, ok := sgen.IDCols[ts[i].Name]; ok && ts[i].Col(idc) >= 0 && len(ts[i].Rows) > 1 {
+			lastID[ts[i].Name] = ts[i].Rows[len(ts[i].Rows)-1][ts[i].Col(idc)]
+		}
+	}
+	for i := range out {
+		if len(out[i].Rows) > 1 {
+			out[i].Rows = out[i].Rows[:1]
+		}
+	}
+	for _, rc := range sgen.RefCols {
+		tb := out.Get(rc[0])
+		if tb == nil || tb.Col(rc[1]) < 0 || len(tb.Rows) == 0 || lastID[rc[2]] == "" {
+			continue
+		}
+		tb.Rows[0][tb.Col(rc[1])] = lastID[rc[2]]
+	}
+	return out
 }
 
 func TestC05Static(t *testing.T) {
@@ -623,8 +654,14 @@ func TestC05StaticTables(t *testing.T) {
 		}
 		p, _ := sgen.GenPresentation(t, mts)
 		c := CaseStaticTables{Tables: mts, Pres: p, Inherit: rapid.Bool().Draw(t, "inherit"), Labels: labels}
+		if rapid.IntRange(0, 3).Draw(t, "followUp") == 0 {
+			c.Follow = followUp(mts)
+		}
 		vt.SaveCurrent(c05TablesRec, c)
 		ok, acc, err := c05RunStatic(sgen.Render(c.Tables, c.Pres), c.Inherit)
+		if err == nil && c.Follow != nil {
+			_, _, err = c05RunStatic(sgen.Render(c.Follow, sgen.Canonical()), c.Inherit)
+		}
 		sizeCls := ""
 		if len(labels) > 0 && (strings.HasPrefix(labels[len(labels)-1], "long-group-") || strings.HasPrefix(labels[len(labels)-1], "inflated-")) {
 			sizeCls = "size-class"
